@@ -371,7 +371,7 @@ def oracle_options(case, rec):
 # ----------------------------------------------------------------------------
 # buffer reuse: the same array objects, new contents
 
-REUSE = ['sift', 'mask_sift/zc', 'get_next_imf', 'get_next_imf_mask', 'interp_envelope', 'get_padded_extrema',
+REUSE = ['hilberthuang/sparse', 'sift', 'mask_sift/zc', 'get_next_imf', 'get_next_imf_mask', 'interp_envelope', 'get_padded_extrema',
          'frequency_transform/hilbert', 'frequency_transform/nht', 'frequency_transform/quad', 'amplitude_normalise',
          'quadrature_transform', 'hilberthuang', 'hilberthuang_1d', 'holospectrum', 'get_cycle_vector', 'get_cycle_vector+mask',
          'get_cycle_stat', 'phase_align', 'bin_by_phase', 'Cycles', 'kdt_match', 'project_subset_to_samples', 'is_good',
@@ -401,6 +401,8 @@ def reuse_entry(emd, name):
         'amplitude_normalise': (lambda X: emd.utils.amplitude_normalise(X), lambda x: [np.c_[x, x[::-1]]]),
         'quadrature_transform': (lambda X: SP.quadrature_transform(X), lambda x: [np.c_[x, x[::-1]]]),
         'hilberthuang': (lambda f, a: SP.hilberthuang(f, a, edges), lambda x: [np.abs(np.c_[x, x[::-1]]) * 1.5, np.abs(np.c_[x, x[::-1]])]),
+        'hilberthuang/sparse': (lambda f, a: SP.hilberthuang(f, a, np.linspace(0, 30, 7), mode='amplitude', return_sparse=True),
+                                lambda x: [np.abs(np.c_[x, x[::-1]]) * 1.5, np.abs(np.c_[x, x[::-1]])]),
         'hilberthuang_1d': (lambda f, a: SP.hilberthuang_1d(f, a, edges), lambda x: [np.abs(np.c_[x, x[::-1]]) * 1.5, np.abs(np.c_[x, x[::-1]])]),
         'holospectrum': (lambda f, f2, a2: SP.holospectrum(f, f2, a2, edges, edges, squash_time=False),
                          lambda x: [np.abs(np.c_[x, x[::-1]]) * 1.5, np.abs(np.tile(x[:, None, None], (1, 2, 2))) * 1.2,
@@ -448,15 +450,27 @@ def oracle_reuse(case, rec):
             raise Discard('the two argument sets differ in shape (data-dependent construction)')
         try:
             bufs = [a.copy() for a in A]
-            f(*bufs)
+            first = f(*bufs)
+            if hasattr(first, 'toarray'):
+                first_snapshot = np.asarray(first.toarray()).copy()
+            else:
+                first_snapshot = copy.deepcopy(first)
             for buf, b in zip(bufs, B):
                 buf[...] = b
+            now = np.asarray(first.toarray()) if hasattr(first, 'toarray') else first
+            if not same(first_snapshot, now):
+                raise Violation('C19/%s/returned-result-aliases-an-input-array' % name,
+                                'the result of the first call changed when the caller overwrote its input arrays')
             second = f(*bufs)
             fresh = f(*[b.copy() for b in B])
+        except Violation:
+            raise
         except emd.support.EMDSiftCovergeError:
             raise Discard('convergence error')
         except Exception as e:
             raise Discard('routine rejects this input: %s' % type(e).__name__)
+    if hasattr(second, 'toarray'):
+        second, fresh = np.asarray(second.toarray()), np.asarray(fresh.toarray())
     if not same(second, fresh):
         raise Violation('C19/%s/result-depends-on-an-earlier-call-through-the-same-array-objects' % name, '')
     rec.cls('routine=' + name)
